@@ -12,7 +12,8 @@ from . import guesser, scratch
 
 WORDS = ["password", "monkey", "dragon", "love", "abc", "iloveyou", "cat", "a", "test", "shadow", "blue", "pass"]
 CAPWORDS = ["Password", "MONKEY", "dRagon", "LoVe", "Abc", "TEST", "passWORD"]
-NONASCII = ["пароль", "λόγος", "señor", "é", "über", "ñandú", "мир", "Привет"]
+NONASCII = ["пароль", "λόγος", "señor", "é", "über", "ñandú", "мир", "Привет", "\u01c4amija", "\u01c7ubav", "\u01caegos", "\u01f1eta",
+            "\u1c9e\u10d0\u10e0\u10dd\u10da\u10d8", "\u1c9b\u10d4"]
 DIGS = ["1", "12", "123", "1234", "2019", "1987", "007", "0", "99", "2000", "19", "20191"]
 SYMS = ["!", "!!", "@", "#", "$$", ".", "-", "_", " ", "  ", "?!"]
 CASED_SYMBOLS = ["Ⓐ", "Ⓩ", "Ⅷ", "Ⅻ", "ⓐ", "ⅷ", "★", "②"]     # circled capitals / Roman numerals: not letters, yet str.lower() changes them
